@@ -44,6 +44,7 @@ struct In {
   bool shared = false;
   std::uint32_t id = 0;
   std::uint64_t set_invoke = 0, set_return = 0;
+  std::uint32_t cell = 0;  // written before the input is fulfilled
 };
 
 class Case final : public sim::CaseBase {
@@ -161,6 +162,8 @@ class Case final : public sim::CaseBase {
 
   template <typename V, typename P>
   void Fulfil(P p, In& in) {
+    sim::RaceWrite(&in.cell, sizeof in.cell);
+    in.cell = in.id;
     in.set_invoke = sim::Seq();
     if (in.outcome == 1) {
       std::move(p).Set(E{in.id});
@@ -513,6 +516,23 @@ class Case final : public sim::CaseBase {
       kept_for_resample = true;
       if (comb != kWhenAny) {
         first_top = TopOf(r);
+      }
+    }
+    ReadVisibleCells();
+  }
+
+  // What the producers wrote before fulfilling the inputs that the output depends on must be visible to whoever
+  // observed the output (C04): all inputs when the output carries all of them, otherwise the winning input.
+  void ReadVisibleCells() {
+    const bool all = comb != kWhenAny && (policy == 0 || obs.top.kind == OKind::Value);
+    for (auto& in : ins) {
+      const bool winner = !all && ((in.outcome == 0 && obs.top == Outcome{OKind::Value, in.id}) || (in.outcome == 1 && obs.top == Outcome{OKind::Error, in.id}) ||
+                                   (in.outcome == 2 && obs.top == Outcome{OKind::Exception, in.id}));
+      if (all || winner) {
+        sim::RaceRead(&in.cell, sizeof in.cell);
+        if (in.cell != in.id) {
+          sim::Fail("STALE_PAYLOAD", "the output was observed, but what the producer of an input it carries wrote before fulfilling is not visible");
+        }
       }
     }
   }
